@@ -14,6 +14,8 @@ from pathlib import Path
 VERIF = Path(__file__).resolve().parents[1]
 REPO = Path(os.environ.get('HOMONIM_REPO', '/repo'))
 OUT = Path(os.environ.get('SKELETON_OUT', VERIF / 'coq' / 'gen' / 'Skeleton.v'))
+sys.path.insert(0, str(VERIF))
+from translate.resolve import parse_source, simplify, _substitute, namedtuples, _KNOWN_TUPLES      # noqa: E402
 
 RES = {'self._src_im': 0, 'self._ref_im': 1, 'corr_im': 2, 'out_im': 2, 'param_im': 3, 'self._param_im': 4}
 LOCKS = {'self._src_lock': 0, 'self._ref_lock': 1, 'self._corr_lock': 2, 'self._param_lock': 3, 'read_lock': 4, 'self._lock': 5}
@@ -26,7 +28,7 @@ class TranslatorError(Exception):
 
 
 def parse(name):
-    return ast.parse((REPO / 'homonim' / name).read_text(), filename=name)
+    return parse_source((REPO / 'homonim' / name).read_text(), filename=name)
 
 
 def find_func(tree, cls, name, inner=None):
@@ -333,6 +335,40 @@ class Worker:
         raise TranslatorError(f'unsupported statement in a worker body: {type(s).__name__} at line {s.lineno}')
 
 
+def splice_helpers(func, methods, keep=(), depth=2, subst=False):
+    """A copy of `func` in which statements that merely call a helper method of the same class (`self.helper(...)`, not in `keep`) are replaced
+    by the helper's body (code moved into a private method stays visible to the structural checks below)."""
+    import copy
+
+    def splice(stmts, d):
+        out = []
+        for st in stmts:
+            if d > 0 and isinstance(st, ast.Expr) and isinstance(st.value, ast.Call) and isinstance(st.value.func, ast.Attribute) \
+                    and ast.unparse(st.value.func.value) == 'self' and st.value.func.attr in methods and st.value.func.attr not in keep:
+                h = methods[st.value.func.attr]
+                body = copy.deepcopy(h.body)
+                if subst:
+                    # the helper's parameters stand for the arguments of this call (records built for the call are seen through)
+                    ps = [a.arg for a in h.args.posonlyargs + h.args.args][1:]
+                    binding = {p_: a_ for p_, a_ in zip(ps, st.value.args) if not isinstance(a_, ast.Starred)}
+                    binding.update({k_.arg: k_.value for k_ in st.value.keywords if k_.arg in ps})
+                    assigned = {n_.id for b_ in body for n_ in ast.walk(b_) if isinstance(n_, ast.Name) and isinstance(n_.ctx, ast.Store)}
+                    binding = {k_: v_ for k_, v_ in binding.items() if k_ not in assigned}
+                    body = [ast.fix_missing_locations(simplify(_substitute(b_, binding))) for b_ in body]
+                out.extend(splice(body, d - 1))
+                continue
+            for fld in ('body', 'orelse', 'finalbody'):
+                if hasattr(st, fld) and isinstance(getattr(st, fld), list):
+                    setattr(st, fld, splice(getattr(st, fld), d))
+            for h in getattr(st, 'handlers', []):
+                h.body = splice(h.body, d)
+            out.append(st)
+        return out
+    f2 = copy.deepcopy(func)
+    f2.body = splice(f2.body, depth)
+    return f2
+
+
 def coord_info(func, worker_names, files_ctx=None):
     """Flags describing a coordinator function (fan-out / fan-in structure)."""
     pool_with, pool_in_files = None, files_ctx is None
@@ -399,6 +435,24 @@ def out_files_info(func, process_func):
                 k = 'FParam' if 'param_filename' in t else 'FCorr'
                 entry.append(f'FCheck {k}')
                 continue
+            # ... or the same checks under a shared outer test: `if not overwrite: if a.exists(): raise ..; if b and b.exists(): raise ..`
+            def only_checks(st, conds):
+                found = []
+                for m in st.body:
+                    if isinstance(m, ast.If) and not m.orelse:
+                        r = only_checks(m, conds + [ast.unparse(m.test)])
+                        if r is None:
+                            return None
+                        found += r
+                    elif isinstance(m, ast.Raise) and 'FileExistsError' in ast.unparse(m):
+                        found.append(' and '.join(conds))
+                    else:
+                        return None
+                return found
+            chk = only_checks(s, [t]) if not s.orelse else None
+            if chk and all('overwrite' in c and '.exists()' in c for c in chk):
+                entry.extend(f"FCheck {'FParam' if 'param_filename' in c else 'FCorr'}" for c in chk)
+                continue
             opens = [a for a in ast.walk(s) if isinstance(a, ast.Assign) and '.open(' in ast.unparse(a.value)]
             others = [a for a in ast.walk(s) if isinstance(a, (ast.Raise, ast.Try, ast.With, ast.For, ast.While, ast.Return))]
             if len(opens) == 1 and not others:
@@ -453,7 +507,7 @@ def opens_survey():
     inputs = ('self._src_filename', 'self._ref_filename', 'self._param_filename', 'param_filename', 'src_filename', 'ref_filename')
     rows = []
     for py in sorted((REPO / 'homonim').glob('*.py')):
-        tree = ast.parse(py.read_text())
+        tree = parse_source(py.read_text())
         for fn in ast.walk(tree):
             if not isinstance(fn, ast.FunctionDef):
                 continue
@@ -483,7 +537,10 @@ def cli_info():
                     if t in ('Exception', 'BaseException') and isinstance(last, ast.Raise) and 'click.Abort' in ast.unparse(last):
                         # the processing calls must be inside this try
                         inside = ast.unparse(ast.Module(body=s.body, type_ignores=[]))
-                        if ('.process(' in inside or '.stats(' in inside):
+                        helpers = {n_.name: ast.unparse(n_) for n_ in tree.body if isinstance(n_, ast.FunctionDef)}
+                        called = [ast.unparse(c_.func) for c_ in calls_in(ast.Module(body=s.body, type_ignores=[]))]
+                        via_helper = any(('.process(' in helpers[h_] or '.stats(' in helpers[h_]) for h_ in called if h_ in helpers and h_ != name)
+                        if ('.process(' in inside or '.stats(' in inside or via_helper):
                             ok = True
         flags.append(ok)
     return flags
@@ -507,7 +564,9 @@ def tags_plumbing():
             v = ast.unparse(s_.value)
             if 'create_' + ast.unparse(s_.targets[0]) in v:
                 eff[ast.unparse(s_.targets[0])] = True
-    of = find_func(fu, 'RasterFuse', '_out_files')
+    _KNOWN_TUPLES.update(namedtuples(fu))
+    meths = {f_.name: f_ for n_ in fu.body if isinstance(n_, ast.ClassDef) and n_.name == 'RasterFuse' for f_ in n_.body if isinstance(f_, ast.FunctionDef)}
+    of = splice_helpers(find_func(fu, 'RasterFuse', '_out_files'), meths, keep=('_set_corr_metadata', '_set_param_metadata', '_build_overviews'), subst=True)
     fwd = {'_set_corr_metadata': False, '_set_param_metadata': False}
     for c in calls_in(of):
         f = ast.unparse(c.func)
@@ -612,6 +671,8 @@ def generate():
     ss_ir = Worker(shared_names=['image_accum'], callee_writes=stats_writes, alias=outer_aliases(find_func(st, 'ParamStats', 'stats'))).stmts(
         find_func(st, 'ParamStats', 'stats', 'get_block_sums').body)
     process = find_func(fu, 'RasterFuse', 'process')
+    _KNOWN_TUPLES.update(namedtuples(fu))
+    fuse_methods = {f_.name: f_ for n_ in fu.body if isinstance(n_, ast.ClassDef) and n_.name == 'RasterFuse' for f_ in n_.body if isinstance(f_, ast.FunctionDef)}
     rows = opens_survey()
     cli = cli_info()
     b = lambda x: 'true' if x else 'false'  # noqa: E731
@@ -631,12 +692,12 @@ Definition compare_worker : list stmt := {lst(cmp_ir)}.
 Definition stats_window_worker : list stmt := {lst(sw_ir)}.
 Definition stats_sums_worker : list stmt := {lst(ss_ir)}.
 
-Definition fuse_coord : coord := {coord_info(process, ['self._process_block'], files_ctx='self._out_files')}.
+Definition fuse_coord : coord := {coord_info(splice_helpers(process, fuse_methods, keep=('_process_block', 'read', 'block_pairs', '_out_files')), ['self._process_block'], files_ctx='self._out_files')}.
 Definition compare_coord : coord := {coord_info(find_func(cm, 'RasterCompare', 'process'), ['get_block_sums'])}.
 Definition stats_window_coord : coord := {coord_info(find_func(st, 'ParamStats', '_get_data_window'), ['get_block_data_window'])}.
 Definition stats_sums_coord : coord := {coord_info(find_func(st, 'ParamStats', 'stats'), ['get_block_sums'])}.
 
-Definition fuse_out_files : out_files := {out_files_info(find_func(fu, 'RasterFuse', '_out_files'), process)}.
+Definition fuse_out_files : out_files := {out_files_info(splice_helpers(find_func(fu, 'RasterFuse', '_out_files'), fuse_methods, keep=('_set_corr_metadata', '_set_param_metadata', '_build_overviews'), subst=True), process)}.
 
 (* every rio.open call of the package: (opens an INPUT path, opened for writing)
 {chr(10).join(f"   {r[0]}:{r[1]}  {r[2]}  input={r[3]} write={r[4]}" for r in rows)} *)
